@@ -20,14 +20,10 @@ theorem monthNorm_eq (y mo : Int) : monthNorm y mo = (y + (mo - 1) / 12, (mo - 1
   split <;> (apply Prod.ext <;> simp only [] <;> omega)
 
 /-- the carry chain is division of the total millisecond count -/
-theorem time_split (h mi s ms : Int) :
-    let T := ((h * 60 + mi) * 60 + s) * 1000 + ms
-    let s1 := s + ms / 1000
-    let mi1 := mi + s1 / 60
-    let h1 := h + mi1 / 60
+theorem time_split (h mi s ms T s1 mi1 h1 : Int) (hT : T = ((h * 60 + mi) * 60 + s) * 1000 + ms)
+    (hs1 : s1 = s + ms / 1000) (hm1 : mi1 = mi + s1 / 60) (hh1 : h1 = h + mi1 / 60) :
     T / 86400000 = h1 / 24 ∧ T % 86400000 / 3600000 = h1 % 24 ∧ T % 86400000 / 60000 % 60 = mi1 % 60 ∧
       T % 86400000 / 1000 % 60 = s1 % 60 ∧ T % 86400000 % 1000 = ms % 1000 := by
-  intro T s1 mi1 h1
   omega
 
 /-- **C16 / normalisation.** For ALL integer arguments the carry chain, the month normalisation and the two day
@@ -36,16 +32,16 @@ loops of `_datetime_new` compute exactly proleptic-Gregorian ordinal arithmetic:
 (`none`) exactly when that instant lies outside years 1..9999 (where `datetime.datetime(...)` raises). -/
 theorem datetimeNewCore_is_ordinal_arithmetic (y mo d h mi s ms : Int) :
     datetimeNewCore y mo d h mi s ms = datetimeNewSpec y mo d h mi s ms := by
-  obtain ⟨t1, t2, t3, t4, t5⟩ := time_split h mi s ms
   simp only [datetimeNewCore, carry_1000, carry_60, carry_24, monthNorm_eq, datetimeNewSpec, msPerDay]
-  simp only [] at t1 t2 t3 t4 t5
-  generalize ((h * 60 + mi) * 60 + s) * 1000 + ms = T at *
-  generalize hs1 : s + ms / 1000 = s1 at *
-  generalize hm1 : mi + s1 / 60 = mi1 at *
-  generalize hh1 : h + mi1 / 60 = h1 at *
+  generalize hT : ((h * 60 + mi) * 60 + s) * 1000 + ms = T
+  generalize hs1 : s + ms / 1000 = s1
+  generalize hm1 : mi + s1 / 60 = mi1
+  generalize hh1 : h + mi1 / 60 = h1
+  obtain ⟨t1, t2, t3, t4, t5⟩ := time_split h mi s ms T s1 mi1 h1 hT.symm hs1.symm hm1.symm hh1.symm
   obtain ⟨y', m', d', hr, a1, a2, b1, b2, ho⟩ :=
     dayAdjust_spec (y + (mo - 1) / 12) ((mo - 1) % 12 + 1) (d + h1 / 24) (by omega) (by omega)
   rw [hr]
+  simp only [construct]
   have hv : ValidMD y' m' d' := ⟨a1, a2, b1, b2⟩
   have hord : ymd2ord (y + (mo - 1) / 12) ((mo - 1) % 12 + 1) 1 + (d - 1) + T / 86400000 = ymd2ord y' m' d' := by
     simp only [ymd2ord_eq]; omega
@@ -63,5 +59,115 @@ theorem datetimeNew_is_ordinal_arithmetic (y mo d h mi s ms : Int) :
     datetimeNew y mo d h mi s ms =
       if yearGte ≤ y ∧ dayGte ≤ d ∧ d ≤ dayLte then datetimeNewSpec y mo d h mi s ms else none := by
   unfold datetimeNew; rw [datetimeNewCore_is_ordinal_arithmetic]
+
+/-! ### getters, and the integer-millisecond instant model -/
+
+theorem tod_fields {tod : Int} (h0 : 0 ≤ tod) (h1 : tod < 86400000) :
+    0 ≤ tod / 3600000 ∧ tod / 3600000 ≤ 23 ∧ 0 ≤ tod / 60000 % 60 ∧ tod / 60000 % 60 ≤ 59 ∧
+    0 ≤ tod / 1000 % 60 ∧ tod / 1000 % 60 ≤ 59 ∧ 0 ≤ tod % 1000 ∧ tod % 1000 ≤ 999 ∧
+    ((tod / 3600000 * 60 + tod / 60000 % 60) * 60 + tod / 1000 % 60) * 1000 + tod % 1000 = tod := by
+  omega
+
+/-- what `fromOrdinalMs` returns is a valid datetime whose parts recompose to the instant -/
+theorem fromOrdinalMs_some {ord tod : Int} {t : DT} (h : fromOrdinalMs ord tod = some t)
+    (h0 : 0 ≤ tod) (h1 : tod < msPerDay) : t.Valid ∧ toLocalMs t = (ord - 1) * msPerDay + tod := by
+  unfold fromOrdinalMs at h
+  split at h
+  · rename_i hr
+    have hs := ord2ymd_sound ord
+    have hv := ord2ymd_valid ord
+    have hy := (year_range_iff hv).2 (by rw [hs.2.2.2.2]; exact hr)
+    obtain ⟨f1, f2, f3, f4, f5, f6, f7, f8, f9⟩ := tod_fields h0 h1
+    simp only [Option.some.injEq] at h
+    subst h
+    refine ⟨⟨hy.1, hy.2, hs.1, hs.2.1, hs.2.2.1, hs.2.2.2.1, f1, f2, f3, f4, f5, f6, f7, f8⟩, ?_⟩
+    simp only [toLocalMs, hs.2.2.2.2, f9]
+  · simp at h
+
+/-- a valid datetime is `fromOrdinalMs` of its own ordinal and time of day -/
+theorem fromOrdinalMs_of_valid {t : DT} (hv : t.Valid) :
+    fromOrdinalMs (ymd2ord t.year t.month t.day) (((t.hour * 60 + t.minute) * 60 + t.second) * 1000 + t.ms) = some t := by
+  obtain ⟨y1, y2, m1, m2, d1, d2, a1, a2, b1, b2, c1, c2, e1, e2⟩ := hv
+  have hmd : ValidMD t.year t.month t.day := ⟨m1, m2, d1, d2⟩
+  have hr := (year_range_iff hmd).1 ⟨y1, y2⟩
+  simp only [fromOrdinalMs, hr, and_self, if_true, ord2ymd_ymd2ord hmd]
+  have q1 : (((t.hour * 60 + t.minute) * 60 + t.second) * 1000 + t.ms) / 3600000 = t.hour := by omega
+  have q2 : (((t.hour * 60 + t.minute) * 60 + t.second) * 1000 + t.ms) / 60000 % 60 = t.minute := by omega
+  have q3 : (((t.hour * 60 + t.minute) * 60 + t.second) * 1000 + t.ms) / 1000 % 60 = t.second := by omega
+  have q4 : (((t.hour * 60 + t.minute) * 60 + t.second) * 1000 + t.ms) % 1000 = t.ms := by omega
+  rw [q1, q2, q3, q4]
+
+theorem tod_bounds {t : DT} (hv : t.Valid) :
+    0 ≤ ((t.hour * 60 + t.minute) * 60 + t.second) * 1000 + t.ms ∧
+      ((t.hour * 60 + t.minute) * 60 + t.second) * 1000 + t.ms < msPerDay := by
+  obtain ⟨y1, y2, m1, m2, d1, d2, a1, a2, b1, b2, c1, c2, e1, e2⟩ := hv
+  simp only [msPerDay]; omega
+
+theorem ofLocalMs_toLocalMs {t : DT} (hv : t.Valid) : ofLocalMs (toLocalMs t) = some t := by
+  have hb := tod_bounds hv
+  have := fromOrdinalMs_of_valid hv
+  simp only [msPerDay] at hb
+  simp only [ofLocalMs, toLocalMs, msPerDay]
+  have e1 : ((ymd2ord t.year t.month t.day - 1) * 86400000 +
+      (((t.hour * 60 + t.minute) * 60 + t.second) * 1000 + t.ms)) / 86400000 + 1 = ymd2ord t.year t.month t.day := by omega
+  have e2 : ((ymd2ord t.year t.month t.day - 1) * 86400000 +
+      (((t.hour * 60 + t.minute) * 60 + t.second) * 1000 + t.ms)) % 86400000 =
+      ((t.hour * 60 + t.minute) * 60 + t.second) * 1000 + t.ms := by omega
+  rw [e1, e2]; exact this
+
+theorem toLocalMs_ofLocalMs {x : Int} {t : DT} (h : ofLocalMs x = some t) : t.Valid ∧ toLocalMs t = x := by
+  have := fromOrdinalMs_some h (Int.emod_nonneg x (by decide)) (Int.emod_lt_of_pos x (by decide))
+  refine ⟨this.1, ?_⟩
+  rw [this.2]; simp only [msPerDay]; omega
+
+/-- **C16 / getters.** Whatever `datetimeNew` returns is a well-formed datetime; its getters (year, month, day, hour,
+minute, second, millisecond) are the parts of the normalised instant — they recompose to
+`ordinal(first of normalised month) + day − 1` days plus the total milliseconds — and feeding them back to
+`datetimeNew` returns the same datetime (normalisation is idempotent). -/
+theorem getters_roundtrip {y mo d h mi s ms : Int} {t : DT} (hnew : datetimeNewCore y mo d h mi s ms = some t) :
+    t.Valid ∧
+    toLocalMs t = (ymd2ord (y + (mo - 1) / 12) ((mo - 1) % 12 + 1) 1 - 1 + (d - 1)) * msPerDay +
+      (((h * 60 + mi) * 60 + s) * 1000 + ms) ∧
+    datetimeNewCore t.year t.month t.day t.hour t.minute t.second t.ms = some t := by
+  rw [datetimeNewCore_is_ordinal_arithmetic] at hnew
+  simp only [datetimeNewSpec] at hnew
+  have hs := fromOrdinalMs_some hnew (Int.emod_nonneg _ (by decide)) (Int.emod_lt_of_pos _ (by decide))
+  refine ⟨hs.1, ?_, ?_⟩
+  · rw [hs.2]; simp only [msPerDay]; omega
+  · rw [datetimeNewCore_is_ordinal_arithmetic]
+    obtain ⟨y1, y2, m1, m2, d1, d2, a1, a2, b1, b2, c1, c2, e1, e2⟩ := hs.1
+    have hT := tod_bounds hs.1
+    simp only [msPerDay] at hT
+    simp only [datetimeNewSpec, msPerDay]
+    have k1 : t.year + (t.month - 1) / 12 = t.year := by omega
+    have k2 : (t.month - 1) % 12 + 1 = t.month := by omega
+    have k3 : (((t.hour * 60 + t.minute) * 60 + t.second) * 1000 + t.ms) / 86400000 = 0 := by omega
+    have k4 : (((t.hour * 60 + t.minute) * 60 + t.second) * 1000 + t.ms) % 86400000 =
+        ((t.hour * 60 + t.minute) * 60 + t.second) * 1000 + t.ms := by omega
+    rw [k1, k2, k3, k4]
+    have k5 : ymd2ord t.year t.month 1 + (t.day - 1) + 0 = ymd2ord t.year t.month t.day := by
+      simp only [ymd2ord]; omega
+    rw [k5]
+    exact fromOrdinalMs_of_valid hs.1
+
+/-- **C16 / arithmetic.** Adding an integral number `n` of milliseconds and then subtracting the original datetime
+gives `n` (whenever the sum is a datetime at all, i.e. stays within years 1..9999; otherwise the sum is `null`). -/
+theorem add_sub_ms {t t' : DT} {n : Int} (h : addMs t n = some t') : subMs t' t = n ∧ t'.Valid := by
+  have := toLocalMs_ofLocalMs h
+  exact ⟨by simp only [subMs, this.2]; omega, this.1⟩
+
+/-- the sum is `null` exactly when it leaves years 1..9999 -/
+theorem add_none_iff (t : DT) (n : Int) :
+    addMs t n = none ↔ ¬ (1 ≤ (toLocalMs t + n) / msPerDay + 1 ∧ (toLocalMs t + n) / msPerDay + 1 ≤ maxOrdinal) := by
+  simp only [addMs, ofLocalMs, fromOrdinalMs]
+  split <;> simp_all
+
+/-- adding zero is the identity; adding in two steps is adding the sum -/
+theorem add_zero {t : DT} (hv : t.Valid) : addMs t 0 = some t := by
+  simp only [addMs, Int.add_zero]; exact ofLocalMs_toLocalMs hv
+
+theorem add_add {t t' : DT} {a b : Int} (h : addMs t a = some t') : addMs t' b = addMs t (a + b) := by
+  have := toLocalMs_ofLocalMs h
+  simp only [addMs, this.2, Int.add_assoc]
 
 end C16
